@@ -65,8 +65,9 @@ class TopocentricFrame(frames.Frame):
             event_classes = tuple(listener.event for listener in sta_list)
 
         for point in orb.iter(**kwargs):
-            point.frame = self
-            point.form = "spherical"
+            # The points are also held by the listeners, as their previous
+            # state: they should not be modified in place
+            point = point.copy(frame=self, form="spherical")
 
             # Not very clean !
             if point.phi < 0 and not isinstance(point.event, event_classes):
